@@ -1,8 +1,8 @@
 (* C01 at the level of the entry points of the model: Issuer::encode followed by Holder::verify. *)
 From Coq Require Import List String Ascii Bool Arith ZArith Lia Sorting.Sorted Permutation.
 Import ListNotations.
-Require Import SDJ.Json SDJ.Wire SDJ.Model2 SDJ.Out SDJ.Restore2 SDJ.ATree SDJ.T2a SDJ.T2b SDJ.T2c SDJ.T2d SDJ.T2e SDJ.T2h SDJ.T2k SDJ.T2m SDJ.T2n SDJ.T2o
-  SDJ.Issuer1 SDJ.T1a SDJ.T1b SDJ.T1c SDJ.T1d SDJ.T1e SDJ.T1f SDJ.T1g SDJ.T1h SDJ.T1i SDJ.T1j SDJ.Split SDJ.SplitM SDJ.SplitMProofs SDJ.Issuer2 SDJ.T1k SDJ.T1m SDJ.T1n SDJ.T1q
+Require Import SDJ.Json SDJ.Wire SDJ.Model2 SDJ.Out SDJ.Restore2 SDJ.ATree SDJ.T2a SDJ.T2b SDJ.T2c SDJ.T2d SDJ.T2e SDJ.T2h SDJ.T2k SDJ.T2m SDJ.T2n SDJ.T2o SDJ.T2p
+  SDJ.Issuer1 SDJ.T1a SDJ.T1b SDJ.T1c SDJ.T1d SDJ.T1e SDJ.T1f SDJ.T1g SDJ.T1h SDJ.T1i SDJ.T1j SDJ.Split SDJ.SplitM SDJ.SplitMProofs SDJ.Issuer2 SDJ.T1k SDJ.T1m SDJ.T1n SDJ.T1q SDJ.T1r SDJ.T1s
   SDJ.Verify SDJ.C07Proofs.
 Local Open Scope string_scope.
 
@@ -41,7 +41,8 @@ Lemma root_stage (mems' : amems) (max_decoys : option Z) :
     wf H enc (AObj m1) /\ hdigs H enc (AObj m1) = hdigs H enc (AObj mems') /\
     NoDup (alldigs H enc (AObj m1)) /\
     aheight (AObj m1) <= Nat.max (aheight (AObj mems')) 3 /\
-    flat_map (pmem H enc Rall) m1 = flat_map (pmem H enc Rall) mems'.
+    flat_map (pmem H enc Rall) m1 = flat_map (pmem H enc Rall) mems' /\
+    (forall g p, NodePath H enc Wire.show_nat g (AObj mems') p -> NodePath H enc Wire.show_nat g (AObj m1) p).
 Proof.
   intros Hw' Hnda' HndD Hdfresh.
   pose proof (names_ok_of_wf H enc mems' Hw') as Hnames.
@@ -108,7 +109,8 @@ Proof.
       eapply Permutation_NoDup; [apply Permutation_app_head; apply Permutation_app_comm|]. rewrite app_assoc.
       apply NoDup_app_intro; [assumption|assumption|]. intros g Hg HgD. apply (Hdfresh g HgD). eapply Permutation_in; [symmetry; exact Hp1|assumption]. }
     split; [unfold m1; rewrite aheight_set_sd; lia|].
-    pose proof (proj_set_sd H enc Rall l' mems') as Hps1. rewrite !proj_obj in Hps1. fold m1 in Hps1. congruence.
+    split; [pose proof (proj_set_sd H enc Rall l' mems') as Hps1; rewrite !proj_obj in Hps1; fold m1 in Hps1; congruence|].
+    intros g p Hn. eapply NodePath_members; [exact Hw'| |exact Hn]. intros m Hm Hk. apply set_sd_in; assumption.
   - (* no top-level claim is disclosable *)
     assert (Hget : obj_get "_sd" (flat_map (bmem H enc) mems') = None).
     { rewrite (obj_get_sd_blind H enc mems' Hsorted Hnames), (no_sd_find mems' Hnames Hnsd). reflexivity. }
@@ -129,13 +131,14 @@ Proof.
       { eapply Permutation_NoDup; [symmetry; apply (alldigs_ains_sd H enc l' mems' Hnsd)|].
         eapply Permutation_NoDup; [apply Permutation_app_tail; symmetry; exact Hl'perm|].
         apply NoDup_app_intro; [assumption|assumption|]. intros g HgD Hg. exact (Hdfresh g HgD Hg). }
-      split; [apply aheight_ains_sd|]. apply pmems_ains_sd. assumption.
+      split; [apply aheight_ains_sd|]. split; [apply pmems_ains_sd; assumption|].
+      intros g p Hn. eapply NodePath_members; [exact Hw'| |exact Hn]. intros m0 Hm0 _. apply ains_in; assumption.
     + exists mems', (flat_map (bmem H enc) mems'). split; [exact Hst|].
       split; [unfold shuffle_top; rewrite Hget; reflexivity|].
-      split; [auto|]. split; [assumption|]. split; [reflexivity|]. split; [assumption|]. split; [lia|reflexivity].
+      split; [auto|]. split; [assumption|]. split; [reflexivity|]. split; [assumption|]. split; [lia|]. split; [reflexivity|auto].
 Qed.
 
-Theorem encode_then_holder_verify
+Lemma encode_holder_core
     (ckvs : list (string * json)) (paths : list string) tks (t' : atree)
     (max_decoys : option Z) (cnf : option json) (header : json) :
   jwf (JObj ckvs) -> ~ In "_sd_alg" (map fst ckvs) -> ~ In "cnf" (map fst ckvs) ->
@@ -145,9 +148,13 @@ Theorem encode_then_holder_verify
   (forall g, In g (decoys_used max_decoys) -> ~ In g (alldigs H enc t')) ->   (* fresh decoy draws *)
   (match cnf with Some c => jwf c /\ S (aheight (embed c)) <= 129 | None => True end) ->
   aheight t' <= 129 ->
-  exists token payload ds ps,
+  exists token payload ds ps t'',
     issue E (JObj ckvs) paths max_decoys cnf header = Val (token, payload, ds) /\
-    holder_verify O token = Val (header, match cnf with Some c => JObj (obj_insert "cnf" c ckvs) | None => JObj ckvs end, ps).
+    holder_verify O token = Val (header, match cnf with Some c => JObj (obj_insert "cnf" c ckvs) | None => JObj ckvs end, ps) /\
+    T1j.issue_fold H enc Issuer2.parse_index Issuer2.parse_usize (ie_pos E) (JObj ckvs) tks (ie_salts E) = Ok (blind H enc t', ds) /\
+    NoDup (hdigs H enc t'') /\ Permutation (map snd ps) ds /\
+    Forall (fun pd : dpath => NodePath H enc Wire.show_nat (d_digest (snd pd)) t'' (fst pd)) ps /\
+    (forall g p, NodePath H enc Wire.show_nat g t' p -> NodePath H enc Wire.show_nat g t'' p).
 Proof.
   intros HC Hnalg Hncnf Hnds Hpne Hsp Hm HndD Hdfresh Hcnf Hh.
   set (C := JObj ckvs) in *.
@@ -168,6 +175,7 @@ Proof.
     - cbn [T1j.issue_fold] in Hf. destruct (ie_salts E) as [|salt ss]; [discriminate|].
       destruct (Issuer1.build_disclosure _ _ _ _ _ C toks key salt) as [[c1 d]|]; [|discriminate]. cbn [bind] in Hf.
       destruct (T1j.issue_fold _ _ _ _ _ c1 r ss) as [[c2 ds']|]; [|discriminate]. cbn [bind] in Hf. injection Hf as _ <-. discriminate. }
+  pose proof Hf as Hf0.
   rewrite <- (issue_fold_issuer2 E paths tks C (ie_salts E) Hsp) in Hf.
   assert (Hpm : flat_map (pmem H enc Rall) mems' = ckvs).
   { unfold t', C in Hproj. rewrite proj_obj in Hproj. congruence. }
@@ -186,7 +194,7 @@ Proof.
   assert (Hndh' : NoDup (hdigs H enc t')) by (eapply Permutation_NoDup; [symmetry; exact Hq1|assumption]).
   assert (Hnda' : NoDup (alldigs H enc t')) by (eapply Permutation_NoDup; [symmetry; exact Hq2|assumption]).
   (* decoys and shuffle *)
-  destruct (root_stage mems' max_decoys Hw' Hnda' HndD Hdfresh) as (m1 & kvs1 & Hst1 & Hst2 & Hkeys1 & Hw1 & Hhd1 & Hnda1 & Hht1 & Hp1).
+  destruct (root_stage mems' max_decoys Hw' Hnda' HndD Hdfresh) as (m1 & kvs1 & Hst1 & Hst2 & Hkeys1 & Hw1 & Hhd1 & Hnda1 & Hht1 & Hp1 & Hnp1).
   set (m2 := ains "_sd_alg" (MPlain, ALeaf (JStr "sha-256")) m1).
   set (m3 := match cnf with Some c => ains "cnf" (MPlain, embed c) m2 | None => m2 end).
   set (t'' := AObj m3).
@@ -269,9 +277,22 @@ Proof.
   assert (Hdecoy : forall s, In s (map d_str ds) -> In (H s) (alldigs H enc t'') -> In (H s) (hdigs H enc t'')).
   { intros s Hs _. apply in_map_iff in Hs as [d [<- Hd]]. rewrite <- (Hdig d Hd).
     eapply Permutation_in; [symmetry; exact Hh1|]. eapply Permutation_in; [symmetry; exact Hq1|]. apply in_map. assumption. }
-  destruct (restore_full_ok H enc (o_dec O) Wire.show_nat hash_inj dec_enc t'' Hw3 Hnda'' Hndh'' Hh'' (map d_str ds) ds HndL Hdecoy Hdecode) as [ps Hps].
+  assert (Hallh : forall g, In g (hdigs H enc t'') -> In g (map d_digest ds)).
+  { intros g Hg. eapply Permutation_in; [exact Hq1|]. eapply Permutation_in; [exact Hh1|assumption]. }
+  assert (Hownh : forall d, In d ds -> In (d_digest d) (hdigs H enc t'')).
+  { intros d Hd. eapply Permutation_in; [symmetry; exact Hh1|]. eapply Permutation_in; [symmetry; exact Hq1|]. apply in_map. assumption. }
+  destruct (restore_full_all_paths H enc (o_dec O) Wire.show_nat hash_inj dec_enc t'' Hw3 Hnda'' Hndh'' Hh'' (map d_str ds) ds HndL Hdecoy Hdecode Hallh Hownh)
+    as (ps & Hps & Hperm & Hnps).
   (* Holder::verify *)
-  exists (serialise_token jwt ds), (JObj (flat_map (bmem H enc) m3)), ds, ps. split; [exact Hissue|].
+  exists (serialise_token jwt ds), (JObj (flat_map (bmem H enc) m3)), ds, ps, t''. split; [exact Hissue|].
+  assert (Hkeep : forall g p, NodePath H enc Wire.show_nat g t' p -> NodePath H enc Wire.show_nat g t'' p).
+  { intros g p Hn. apply Hnp1 in Hn.
+    assert (Hn2 : NodePath H enc Wire.show_nat g (AObj m2) p).
+    { eapply NodePath_members; [exact Hw1| |exact Hn]. intros m0 Hm0 _. apply ains_in; assumption. }
+    unfold t'', m3. destruct cnf as [c|]; [|exact Hn2].
+    eapply NodePath_members; [exact Hw2| |exact Hn2]. intros m0 Hm0 _. apply ains_in; assumption. }
+  cut (holder_verify O (serialise_token jwt ds) = Val (header, match cnf with Some c => JObj (obj_insert "cnf" c ckvs) | None => JObj ckvs end, ps)).
+  { intros Hv. split; [exact Hv|]. split; [unfold t', C in Hf0; exact Hf0|]. split; [assumption|]. split; [assumption|]. split; assumption. }
   assert (Halg : jget "_sd_alg" (JObj (flat_map (bmem H enc) m3)) = JStr "sha-256").
   { unfold jget. rewrite Hb3. destruct cnf as [c|].
     - rewrite obj_get_insert_other by discriminate. rewrite Hb2, obj_get_insert_same. reflexivity.
@@ -305,6 +326,68 @@ Proof.
   - rewrite (obj_insert_comm "cnf" c "_sd_alg" (JStr "sha-256")) by (discriminate || assumption).
     rewrite filter_insert_same; [reflexivity|]. intros Hin. apply obj_insert_keys in Hin as [Hq|Hin]; [discriminate|contradiction].
   - rewrite filter_insert_same by assumption. reflexivity.
+Qed.
+
+Theorem encode_then_holder_verify
+    (ckvs : list (string * json)) (paths : list string) tks (t' : atree)
+    (max_decoys : option Z) (cnf : option json) (header : json) :
+  jwf (JObj ckvs) -> ~ In "_sd_alg" (map fst ckvs) -> ~ In "cnf" (map fst ckvs) ->
+  NoDup (ie_salts E) -> paths <> [] -> split_paths paths = Some tks ->
+  T1j.mark_fold H enc Issuer2.parse_index Issuer2.parse_usize (ie_pos E) (embed (JObj ckvs)) tks (ie_salts E) = Some t' ->
+  NoDup (decoys_used max_decoys) ->
+  (forall g, In g (decoys_used max_decoys) -> ~ In g (alldigs H enc t')) ->   (* fresh decoy draws *)
+  (match cnf with Some c => jwf c /\ S (aheight (embed c)) <= 129 | None => True end) ->
+  aheight t' <= 129 ->
+  exists token payload ds ps,
+    issue E (JObj ckvs) paths max_decoys cnf header = Val (token, payload, ds) /\
+    holder_verify O token = Val (header, match cnf with Some c => JObj (obj_insert "cnf" c ckvs) | None => JObj ckvs end, ps).
+Proof.
+  intros HC Hnalg Hncnf Hnds Hpne Hsp Hm HndD Hdfresh Hcnf Hh.
+  destruct (encode_holder_core ckvs paths tks t' max_decoys cnf header HC Hnalg Hncnf Hnds Hpne Hsp Hm HndD Hdfresh Hcnf Hh)
+    as (token & payload & ds & ps & t'' & H1 & H2 & _). exists token, payload, ds, ps. split; assumption.
+Qed.
+
+(* the path component: the holder is told one path per disclosure, and the i-th disclosure of the issuer is
+   reported at the rendered address of the i-th path the issuer was given *)
+Theorem encode_then_holder_verify_paths
+    (ckvs : list (string * json)) (paths : list string) tks (addrs : list addr) (t' : atree)
+    (max_decoys : option Z) (cnf : option json) (header : json) :
+  jwf (JObj ckvs) -> ~ In "_sd_alg" (map fst ckvs) -> ~ In "cnf" (map fst ckvs) ->
+  NoDup (ie_salts E) -> paths <> [] -> split_paths paths = Some tks ->
+  Forall2 (fun p a => jresolve Issuer2.parse_index Issuer2.parse_usize (fst p) (snd p) (JObj ckvs) = Some a) tks addrs ->
+  ordered addrs ->
+  T1j.mark_fold H enc Issuer2.parse_index Issuer2.parse_usize (ie_pos E) (embed (JObj ckvs)) tks (ie_salts E) = Some t' ->
+  NoDup (decoys_used max_decoys) ->
+  (forall g, In g (decoys_used max_decoys) -> ~ In g (alldigs H enc t')) ->
+  (match cnf with Some c => jwf c /\ S (aheight (embed c)) <= 129 | None => True end) ->
+  aheight t' <= 129 ->
+  exists token payload ds ps,
+    issue E (JObj ckvs) paths max_decoys cnf header = Val (token, payload, ds) /\
+    holder_verify O token = Val (header, match cnf with Some c => JObj (obj_insert "cnf" c ckvs) | None => JObj ckvs end, ps) /\
+    Permutation (map snd ps) ds /\
+    Forall2 (fun d a => In (render Wire.show_nat a, d) ps) ds addrs.
+Proof.
+  intros HC Hnalg Hncnf Hnds Hpne Hsp HF Hord Hm HndD Hdfresh Hcnf Hh.
+  destruct (encode_holder_core ckvs paths tks t' max_decoys cnf header HC Hnalg Hncnf Hnds Hpne Hsp Hm HndD Hdfresh Hcnf Hh)
+    as (token & payload & ds & ps & t'' & H1 & H2 & Hf & Hndh & Hperm & Hnps & Hkeep).
+  exists token, payload, ds, ps. split; [assumption|]. split; [assumption|]. split; [assumption|].
+  assert (HFr : Forall2 (fun p a => resolve Issuer2.parse_index Issuer2.parse_usize (fst p) (snd p) (embed (JObj ckvs)) = Some a) tks addrs).
+  { clear -HF. induction HF as [|p a ps0 ar Hq HF IH]; constructor; [rewrite resolve_embed; exact Hq|exact IH]. }
+  destruct (issue_fold_paths H enc Wire.show_nat Issuer2.parse_index Issuer2.parse_usize (ie_pos E) tks addrs (ie_salts E) (embed (JObj ckvs)) t'
+              (wf_embed H enc _ HC) HFr Hord Hm) as (ds' & Hf' & Hnp').
+  rewrite (blind_embed H enc) in Hf'. rewrite Hf in Hf'. injection Hf' as <-.
+  assert (Hkey : forall d a, In d ds -> NodePath H enc Wire.show_nat (d_digest d) t' (render Wire.show_nat a) -> In (render Wire.show_nat a, d) ps).
+  { intros d a Hd Hn.
+    assert (Hd' : In d (map snd ps)) by (eapply Permutation_in; [symmetry; exact Hperm|exact Hd]).
+    apply in_map_iff in Hd' as [[p d'] [Hq Hpd]]. cbn in Hq. subst d'.
+    rewrite Forall_forall in Hnps. pose proof (Hnps _ Hpd) as Hn2. cbn [fst snd] in Hn2.
+    rewrite (NodePath_fun H enc Wire.show_nat hash_inj _ t'' _ _ Hndh (Hkeep _ _ Hn) Hn2). exact Hpd. }
+  assert (Hgen : forall dl al, Forall2 (fun d a => NodePath H enc Wire.show_nat (d_digest d) t' (render Wire.show_nat a)) dl al -> incl dl ds ->
+                 Forall2 (fun d a => In (render Wire.show_nat a, d) ps) dl al).
+  { induction 1 as [|d a dr ar Hn HF2 IH]; intros Hincl; constructor.
+    - apply Hkey; [apply Hincl; left; reflexivity|assumption].
+    - apply IH. intros x Hx. apply Hincl. right. assumption. }
+  apply Hgen; [assumption|apply incl_refl].
 Qed.
 End P.
 
